@@ -195,7 +195,7 @@ func init() {
 			}
 		}
 		c.Ev.S.Exhaustive["operator_x_operand_pair_grid"] = done
-		cfg := gen.Cfg{ExprDepth: 5, BodyLen: 2, Nest: 0, Calls: true, Carriers: true}
+		cfg := gen.Cfg{ExprDepth: 5, BodyLen: 2, Nest: 0, Calls: true, Carriers: true, NestInterp: true}
 		sub.Rapid(c, c.Share(c.Pick(24000, 1600000)), func(t *rapid.T) *progCase {
 			g := &gen.G{T: t, C: cfg}
 			return &progCase{P: g.Program()}
